@@ -133,3 +133,11 @@ func verifSnapshotEnd(snapshot []*Chunk) int {
 	}
 	return int(last.items[last.count-1].Index()) + 1
 }
+
+// verifPushed reads the running item counter under the chunk list's lock
+// (the counter is advanced inside Push).
+func verifPushed(cl *ChunkList, counter *int32) int {
+	cl.mutex.Lock()
+	defer cl.mutex.Unlock()
+	return int(*counter)
+}
